@@ -89,6 +89,9 @@ func mutations(r *lib.RNG, base []byte, slots []abi.Slot, nRandom int, allTrunc 
 		for _, v := range abi.SlotValues(sl, len(base)) {
 			ms = append(ms, abi.Mut{Kind: "wordv", I: sl.Word, V: v})
 		}
+		for _, v := range abi.WrapValues(sl, len(base)) {
+			ms = append(ms, abi.Mut{Kind: "wordw", I: sl.Word, V: v})
+		}
 	}
 	for i := 0; i < nRandom; i++ {
 		var raw []byte
@@ -173,11 +176,14 @@ func runChild(jobFile string, startDecl, startRun int) (lines []string, killed s
 }
 
 func runC10(cfg lib.Cfg) error {
-	per := 3
+	per := 1
+	if cfg.Thorough() {
+		per = 3
+	}
 	out := lib.NewOut("C10", cfg.Out, c10Header, "run", per)
 	out.Rule = "a run sequence is non-trivial when the declaration has a selected leaf and at least one array or dynamic member and the sequence contains truncations and boundary-value words; every sequence is scanned by one reused Result"
 	r := lib.NewRNG(cfg.Seed)
-	nDecl, maxWords, nRandom, allTrunc := 16, 10, 10, 512
+	nDecl, maxWords, nRandom, allTrunc := 12, 10, 10, 512
 	if cfg.Thorough() {
 		nDecl, maxWords, nRandom, allTrunc = 220, 32, 40, 512
 	}
@@ -311,6 +317,7 @@ func runC10(cfg lib.Cfg) error {
 				var descs []string
 				end := start
 				clenBound := big.NewInt(1)
+				capBound := big.NewInt(8)
 				for ; end < len(p.muts); end++ {
 					m := p.muts[end]
 					in := m.Apply(p.base)
@@ -355,6 +362,12 @@ func runC10(cfg lib.Cfg) error {
 						}
 						if big.NewInt(int64(obs.N)).Cmp(bound) > 0 {
 							fail(fmt.Sprintf("%d rows for %d bytes of input exceed the bound %s", obs.N, len(in), bound))
+						}
+						if cb := new(big.Int).Add(new(big.Int).Lsh(new(big.Int).Add(bound, big.NewInt(1)), 1), big.NewInt(8)); capBound.Cmp(cb) < 0 {
+							capBound = cb
+						}
+						if obs.CCap >= 0 && big.NewInt(int64(obs.CCap)).Cmp(capBound) > 0 {
+							fail(fmt.Sprintf("capacity of the row collection grew to %d for %d bytes of input (bound %s): allocation follows a claimed count", obs.CCap, len(in), capBound))
 						}
 						if big.NewInt(int64(obs.CLen)).Cmp(clenBound) > 0 {
 							fail(fmt.Sprintf("row collection grew to %d, bound %s", obs.CLen, clenBound))
